@@ -12,7 +12,7 @@ CLAIMED = {
         "steps 1, purity/operands-outside for hoisting), the trip count is a ceiling, the induction values are "
         "k/ub_inner and k%ub_inner with the same constant, the dynamic subview size operand is chosen by counting "
         "dynamic entries. Decides these structural necessary conditions for every execution of the pass code, not the "
-        "operation sequence itself; the imperfect-nest merge is a listed known finding (F-11). Nested helpers of MoveMemrefDims that take an op of the matched type never read the enclosing pattern's matched op. Round-3 clauses: replace_uses_with_if spares only ops built here from the replaced value (by identity); dynamic subview sizes are accepted only from constant / affine.min / derivable dim producers (C17.dim-sources).",
+        "operation sequence itself; the imperfect-nest merge is a listed known finding (F-11). Nested helpers of MoveMemrefDims that take an op of the matched type never read the enclosing pattern's matched op. Round-3 clauses: replace_uses_with_if spares only ops built here from the replaced value (by identity); dynamic subview sizes are accepted only from constant / affine.min / derivable dim producers (C17.dim-sources). Round-4 rule (F-40 fixed): the sizes of a subview are indexed by a result dimension only for subviews known to keep their rank, or through a count-checked mapping (C17.subview-rank).",
         "Python semantics as modelled by the syntax-directed walker (sa/flow.py); xdsl API names (rewriter.*, "
         "replace_uses_with_if, InsertPoint) taken by name; helper predicates summarised one to two levels deep.",
         "custom AST dataflow: must-facts / guard dominance + def-use cones (static analysis)",
@@ -41,7 +41,7 @@ CLAIMED["C07"] = (
     "flags func/llvm calls, honours the effects attribute with the right polarity and recurses over all nested ops; "
     "every branch of the weaving chain that an effecting op can take shrinks the tracked state on every path; setups are "
     "re-linked to state[their accelerator]. A transfer function that does not read what its soundness depends on cannot "
-    "be sound: these are necessary conditions decided for all inputs, not the run-time state itself. Regions woven on their own drop the accelerators configured inside from the outer state (F-30, fixed); a setup is re-linked whenever its in_state differs from the recorded state, an unknown state included (F-31, fixed). Round-3 clauses: the loop-head state depends on an exhaustive scan of the body's setups (a must-state at the yield is not accepted); every own-state recursion into an op's regions drops the accelerators set up inside (may-scan); the state is cleared on entry to every further block / sibling region (C07.weave-regions, F-37 fixed).",
+    "be sound: these are necessary conditions decided for all inputs, not the run-time state itself. Regions woven on their own drop the accelerators configured inside from the outer state (F-30, fixed); a setup is re-linked whenever its in_state differs from the recorded state, an unknown state included (F-31, fixed). Round-3 clauses: the loop-head state depends on an exhaustive scan of the body's setups (a must-state at the yield is not accepted); every own-state recursion into an op's regions drops the accelerators set up inside (may-scan); the state is cleared on entry to every further block / sibling region (C07.weave-regions, F-37 fixed). Round-4 clause: state_intersection in its two-argument or variadic form keeps a key only under equality on every side, a lookup defaulting to the compared value is rejected.",
     WALKER_NOTE,
     "custom AST dataflow: dependency cones (information-flow necessity), path/branch coverage of state-shrinking constructs (static analysis)",
     "DESIGN.md section 5, C07",
@@ -65,7 +65,7 @@ CLAIMED["C03"] = (
     "at positions dim, dim+1 with the suffix shifted; add_dim inserts bound 1 in front; unit-dimension dropping uses one "
     "predicate for bounds and columns whose complement is bound == 1 (abstractly evaluated); the Schedule wrappers pass "
     "arguments unchanged to every pattern; the pass derives the schedule from this op's bounds and all its patterns on "
-    "every path and emits schedule[0].bounds with one map per pattern. Does not decide AffineTransform.compose arithmetic. An un-rotated return of rotate is accepted only where the rotation is the identity. Round-3 clauses: AccessPattern.canonicalize only selects columns (no column rewritten, bias unchanged); get_static_pattern_bounds returns bounds in dimension order (C03.initial-bounds).",
+    "every path and emits schedule[0].bounds with one map per pattern. Does not decide AffineTransform.compose arithmetic. An un-rotated return of rotate is accepted only where the rotation is the identity. Round-3 clauses: AccessPattern.canonicalize only selects columns (no column rewritten, bias unchanged); get_static_pattern_bounds returns bounds in dimension order (C03.initial-bounds). Round-4: the keep-predicate of the unit-dimension drop is evaluated with Python's short-circuit semantics on None / 0 / 1 / 2 / 3 / large; selections by a mask computed from the same bounds are read as filters.",
     WALKER_NOTE,
     "custom AST analysis: symbolic index-segment comparison, must-facts, per-path-class definitions (static analysis)",
     "DESIGN.md section 5, C03",
@@ -90,7 +90,7 @@ CLAIMED["C10"] = (
     "step*bound; canonicalize merges only under inner.step*inner.bound == outer.step, drops only unit bounds and keeps "
     "the innermost level; the common contiguous block only takes strides equal in both layouts that continue the running "
     "extent; bound/step op builders cover every (dim, depth). Decides these clauses, not numeric agreement of the views "
-    "on all layouts (arithmetic). Subview lowering pairs the k-th dynamic offset with the dimension of the k-th DYNAMIC entry and forms (offset div inner tile size) * outermost step * element bytes. Round-3 clauses: largest_common_contiguous_block returns only the built block; is_dense answers True only without self-overlap or against the number of index tuples (C10.dense-injective).",
+    "on all layouts (arithmetic). Subview lowering pairs the k-th dynamic offset with the dimension of the k-th DYNAMIC entry and forms (offset div inner tile size) * outermost step * element bytes. Round-3 clauses: largest_common_contiguous_block returns only the built block; is_dense answers True only without self-overlap or against the number of index tuples (C10.dense-injective). Round-4 clauses (F-41 fixed): every non-zero static subview offset contributes a term for its own dimension and the op is replaced by the running pointer, not by the last op created.",
     WALKER_NOTE,
     "custom AST analysis: sibling (printer/parser) table agreement, slot templates on expanded expressions, must-facts (static analysis)",
     "DESIGN.md section 5, C10",
@@ -102,7 +102,7 @@ CLAIMED["C11"] = (
     "pointer and only then emits, on every path (must-pass-through events + must-facts killed on re-assignment); static "
     "allocators refuse dynamic sizes / missing memory spaces; MiniMallocate extends lifetimes by all uses of the buffer "
     "and transitively of its casts/views, lifted to top-level ops, hands out offset+start within capacity per memory "
-    "space; the descriptor is filled at [0],[1],[2],[3,i]. The external minimalloc solver is trusted. Dynamic size operands are consumed front to back exactly for the DYNAMIC shape entries.",
+    "space; the descriptor is filled at [0],[1],[2],[3,i]. The external minimalloc solver is trusted. Dynamic size operands are consumed front to back exactly for the DYNAMIC shape entries. Round-4 clause: every result of an unrealized conversion cast of the buffer is followed, whatever its type (cast-results).",
     WALKER_NOTE + " minimalloc (external solver, absent from the sandbox) is trusted to return non-overlapping offsets for overlapping lifetimes.",
     "custom AST dataflow: dependency cones, must-pass-through events, must-facts with kill-on-store (typestate) (static analysis)",
     "DESIGN.md section 5, C11",
@@ -116,7 +116,7 @@ CLAIMED["C13"] = (
     "erases a ClusterSyncOp and its only lowering is the hardware-barrier call; in all 16 flag valuations of the pipeline "
     "the last InsertSyncBarrier is followed by DispatchRegions with no op-moving pass in between and SNAXToFunc later. "
     "NOT decided: that every execution path between two dependent ops of a given program contains a barrier (needs "
-    "per-program exploration); the nested-loop back-edge gap is a listed known finding (F-23). A dependency pair may be skipped before the dispatch tests only under a condition that establishes, on every true path of the helper, that neither op writes the shared value. Round-3 rule: a dealloc user of any walked op's value becomes pending whatever core the op is bound to (C13.dealloc); C13.symmetric is decided from dominating facts when the two directions are not two syntactic blocks.",
+    "per-program exploration); the nested-loop back-edge gap is a listed known finding (F-23). A dependency pair may be skipped before the dispatch tests only under a condition that establishes, on every true path of the helper, that neither op writes the shared value. Round-3 rule: a dealloc user of any walked op's value becomes pending whatever core the op is bound to (C13.dealloc); C13.symmetric is decided from dominating facts when the two directions are not two syntactic blocks. Round-4 rule: the users of every operand and every result of every walked op are examined, no op kind contributes only some of its values (C13.every-value).",
     WALKER_NOTE + " Pass classes are identified by name; the list of op-moving passes is frozen in rules/c13.py.",
     "isinstance type-set analysis, sibling alpha-equivalence, who-may-erase scan, abstract execution of the pipeline builder over all flag valuations (static analysis)",
     "DESIGN.md section 5, C13",
@@ -128,7 +128,7 @@ CLAIMED["C14"] = (
     "after the move (must-pass-through); terminators are never dispatchable so every group is flushed; the dispatcher "
     "is evaluated eagerly for every block of every function with a body; no concrete op kind is in both type sets; "
     "dispatching precedes all lowerings of dispatchable ops in every pipeline. Decides these clauses for every "
-    "execution of the pass code, not per-core traces of a particular program.",
+    "execution of the pass code, not per-core traces of a particular program. Round-4 rule: both dispatch rules recognise an xDMA region by the type of the accelerator the context returns, never by the registered name (C14.xdma-by-type).",
     WALKER_NOTE,
     "custom AST dataflow: dependency templates, must-pass-through events, lazy-evaluation (short-circuit) detection, pipeline typestate (static analysis)",
     "DESIGN.md section 5, C14",
@@ -141,7 +141,7 @@ CLAIMED["C15"] = (
     "directly followed by one reader stage, the single-buffer shortcut only for read-only/write-only buffers; stages are "
     ">= 2 barrier-closed groups with block arguments ordered inputs-then-outputs; only lb 0 / step 1 loops without nested "
     "loops are pipelined. NOT decided: conflict freedom under all interleavings. The missing trip-count guard is a listed "
-    "known finding (F-16).",
+    "known finding (F-16). Round-4 clause: every exit of rewrite_operand has recorded the buffer in the list of its role (every-occurrence-recorded).",
     WALKER_NOTE,
     "custom AST analysis: counting-expression agreement, must-facts, per-path-class index expressions (static analysis)",
     "DESIGN.md section 5, C15",
@@ -179,7 +179,7 @@ CLAIMED["C18"] = (
     "many arguments and yields one value; is_same_kernel compares class and types; on every path LowerRescale emits "
     "trunc(max(min(trunc(shr(mul(extsi(in-zp_in),mult),shift))+zp_out,max_int),min_int)) with each constant from its own "
     "attribute; only single-kernel bodies are expanded. NOT decided: equality of the scalar functions on all integer "
-    "inputs. The dead operand-type test (F-13) and the wiring-blind equivalence test (F-14) are listed known findings.",
+    "inputs. The dead operand-type test (F-13) and the wiring-blind equivalence test (F-14) are listed known findings. Round-4 rule: the op tested for the yield is the one right behind the kernel op, a test on the block's last op is vacuous (C18.single-kernel).",
     WALKER_NOTE,
     "contradiction/ineffective-check detection, read-set (information-flow) analysis, table agreement over the kernel dialect, expanded-expression templates per path class (static analysis)",
     "DESIGN.md section 5, C18",
@@ -193,7 +193,7 @@ CLAIMED["C19"] = (
     "path conditions on the input, evaluated on a grid of model expressions); pairing and or-reduction shape of "
     "pack_bitlist. The identity test is bounded, not a proof; AffineTransform algebra and AccessPattern equivalence are "
     "not decided here (C03 covers the schedule transformations). The unprinted streamer system type is a listed known "
-    "finding (F-15). AffineTransform.from_affine_map refuses floordiv/ceildiv/mod anywhere in a result (complete traversal). Round-3: the rewrite-identity grid contains split/recombine shapes ((a floordiv c) * k + b mod c') with structural equality of model expressions.",
+    "finding (F-15). AffineTransform.from_affine_map refuses floordiv/ceildiv/mod anywhere in a result (complete traversal). Round-3: the rewrite-identity grid contains split/recombine shapes ((a floordiv c) * k + b mod c') with structural equality of model expressions. Round-4 rules: AccessPattern.canonicalize selects bounds and columns by one predicate that rejects exactly bound 1 - dynamic and zero bounds are kept (C19.pattern-canon, F-42 fixed); inner_dims slices bounds and columns alike (C19.inner-dims); the model grid of the rewrite identities has a divisor sharing a factor with a multiplier.",
     WALKER_NOTE + " Rewrite rules are extracted per return site with SSA-like tracking of the re-assigned parameter; helper predicates in path conditions are not assumed.",
     "printer/parser sibling agreement, registry tables, must-facts, bounded abstract evaluation of extracted rewrite rules (static analysis)",
     "DESIGN.md section 5, C19",
@@ -221,7 +221,7 @@ CLAIMED["C08"] = (
     "extension CSR tables have csr_length entries; values named like fields sit at their field's position; per-tensor "
     "lists are replicated only under their own length test. Segments whose length depends on the operation (gemmx "
     "per-channel rescale lists) are reported as undecided, not as violations. Does not decide numeric contents. F-5 and F-7 "
-    "are listed known findings. Four-per-register packing loops of the gemmx accelerator (setup path and per-channel launch path) place channel 4r+j at the same bit offset (abstract bit placement, sibling agreement). Round-3 rules: per-streamer locals are assigned in the iteration that reads them (C08.per-streamer-fresh, F-36 fixed); the bypass bit of an extension is its position among the extensions (C08.bypass-bit).",
+    "are listed known findings. Four-per-register packing loops of the gemmx accelerator (setup path and per-channel launch path) place channel 4r+j at the same bit offset (abstract bit placement, sibling agreement). Round-3 rules: per-streamer locals are assigned in the iteration that reads them (C08.per-streamer-fresh, F-36 fixed); the bypass bit of an extension is its position among the extensions (C08.bypass-bit). Round-4 rule: the rescale whose parameters fill the gemmx registers is located from the region's yield or by a scan of the body, not at a fixed distance behind the matmul (C08.rescale-source).",
     "Python list-building semantics as modelled by sa/shape.py (append/extend/+/splat/comprehensions/loops/if-merging); option tests and length aliases normalised; the xDMA system type is tied to the xDMA accelerator class (frozen).",
     "sequence-shape abstract interpretation with symbolic domains and label provenance; must-facts for guards (static analysis)",
     "DESIGN.md section 5, C08",
@@ -240,7 +240,7 @@ CLAIMED["C04"] = (
     "block arguments of every block of every region; create_pairs fills a missing partner from infer_state_of(this op's "
     "in_state) under the same key and only if unset, defaults are materialised for a first setup, operand order is (rs1, rs2); "
     "memoised objects are never mutated. Does not decide run-time register contents (depends on C07) nor address conventions "
-    "of the hardware that the code does not state. Surviving results of DeleteAllStates are mapped front to back. A factory registered with AccContext.register_accelerator inside a loop binds its accelerator when it is created (C04.registry-binding, F-38 fixed).",
+    "of the hardware that the code does not state. Surviving results of DeleteAllStates are mapped front to back. A factory registered with AccContext.register_accelerator inside a loop binds its accelerator when it is created (C04.registry-binding, F-38 fixed). Round-4 clause: in a lowering that launches once per channel group, a write whose value is selected by the group loop's variable is unconditional in that loop (every-group).",
     "Configuration symbols are non-negative integers; xDMA has two streamers (asserted in its __init__) hence at least four "
     "pointer fields; max_multicast_dest is the class constant; the two reserved registers behind the streamer launch CSR are a "
     "hardware constant frozen in the rule table with the code comment as its reason.",
@@ -278,7 +278,7 @@ CLAIMED["C02"] = (
     "results, xDMA add extension, identity defaults): position h of the pattern list and of inputs+outputs carries the pattern and the "
     "pointer of the operand scheduled for hardware streamer h, and the new op uses exactly what the hook returns; (tsl-affine) by abstract "
     "evaluation with symbolic bounds and steps over the repo's own TSL classes, for every tiling profile of 1-2 dimensions x 1-4 levels: "
-    "the layout map equals offset + sum step*((d mod prod(bounds[depth:])) div prod(bounds[depth+1:])). Also: the pointer is moved, at the place where it is moved, by the origin response of the composed map (not of the layout alone), and StridePattern.canonicalize (applied to every emitted pattern) folds only contiguous dimensions (rule shared with C19). Round-3 clause: get_streamers returns this accelerator's own streamers (a distinct module default is modelled).",
+    "the layout map equals offset + sum step*((d mod prod(bounds[depth:])) div prod(bounds[depth+1:])). Also: the pointer is moved, at the place where it is moved, by the origin response of the composed map (not of the layout alone), and StridePattern.canonicalize (applied to every emitted pattern) folds only contiguous dimensions (rule shared with C19). Round-3 clause: get_streamers returns this accelerator's own streamers (a distinct module default is modelled). Round-4 clause: strides and the base-pointer shift are both in bytes (byte map, or element map times the element size).",
     "Abstract evaluation is bounded (5 hardware streamers from the module's default configuration, <= 4 tile levels, <= 2 dimensions); "
     "models of StridePattern / StreamType / AffineDimExpr are the checker's own (structure only); on a streamer shared by several operands "
     "the first scheduled operand owns pattern and pointer (the add extension's fixed 512-byte second-input stride is taken as given).",
